@@ -373,20 +373,24 @@ def run (kind : Kind) (h : Nat → Nat) : State → List Op → Option (State ×
       | none => none
       | some (s'', os) => some (s'', o :: os)
 
-/-! ### `hash(const String&)` (String.hpp): the three bytes read -/
+/-! ### `hash(const String&)` (String.hpp) over the memory it is given
 
-/-- indices of `s[..]` read by `hash(const String&)` for a string of length `len`
-    (`s` points to `len + 1` bytes: the text and its terminator) -/
-def hashStringReads (len : Nat) : List Nat := [0, len / 2, len - (if len ≠ 0 then 1 else 0)]
+  The function itself is TRANSLATED from the current sources (`Nstd/Generated/HashFn.lean`, written by tools/areas/hash.py):
+  `reads len` = the indices of its `s[..]` expressions in program order (they depend on the length only, the translator
+  refuses anything else), `of len cs` = the code computed from the length and the characters read.  Here: how those reads
+  meet memory. -/
 
-/-- the hash code, over `usize` = 64 bit; `s` = the bytes incl. terminator as signed chars (`hashCode ^= s[i]` sign-extends) -/
-def hashString (s : List Nat) (len : Nat) : Option Nat :=
-  match s[0]?, s[len / 2]?, s[len - (if len ≠ 0 then 1 else 0)]? with
-  | some a, some b, some c =>
-    let m := 2 ^ 64
-    let sx (x : Nat) : Nat := if x < 128 then x else m - 256 + x
-    some (((((((len * 16807) % m) ^^^ sx a) * 16807) % m ^^^ sx b) * 16807) % m ^^^ sx c)
-  | _, _, _ => none
+/-- the characters at the indices `l` of what `s` points to; `none` = a read outside the memory `s` designates -/
+def readAll (s : List Nat) : List Nat → Option (List Nat)
+  | [] => some []
+  | i :: r =>
+    match s[i]?, readAll s r with
+    | some c, some cs => some (c :: cs)
+    | _, _ => none
+
+/-- the hash function assembled from its translation, run on the bytes `s` (text and terminator) -/
+def hashWith (reads : Nat → List Nat) (of : Nat → List Nat → Nat) (s : List Nat) (len : Nat) : Option Nat :=
+  (readAll s (reads len)).map (of len)
 
 /-- what `hash(const String&)` is given: a String whose `data->str` points at offset `off` of the memory block `buf`
     (its own heap block, a literal, or a larger text it was attached to) and whose `data->len` is `len` -/
@@ -407,15 +411,10 @@ def StrView.conv (v : StrView) : Option (List Nat) :=
   | none => none
   | some b => if b = 0 then some (v.buf.drop v.off) else some (v.text ++ [0])
 
-/-- `hash(const String&)` as coded: convert, then read `s[0]`, `s[len/2]`, `s[len-(len!=0)]` -/
-def hashView (v : StrView) : Option Nat :=
+/-- `hash(const String&)` as coded: `const char* s = str;` (convert), then the translated reads and arithmetic -/
+def hashViewWith (reads : Nat → List Nat) (of : Nat → List Nat → Nat) (v : StrView) : Option Nat :=
   match v.conv with
   | none => none
-  | some s => hashString s v.len
-
-/-- the integral overloads `hash(int8) … hash(uint64)` of Base.hpp: `(usize)v`, i.e. sign extension to 64 bit for the
-    signed types; `x` is the bit pattern of the `w`-bit argument -/
-def hashInt (w : Nat) (signed : Bool) (x : Nat) : Nat :=
-  if signed ∧ 2 ^ (w - 1) ≤ x then 2 ^ 64 - 2 ^ w + x else x
+  | some s => hashWith reads of s v.len
 
 end Nstd.Hash
